@@ -23,22 +23,22 @@ CHECKS = {
             "DESIGN.md §5/C05"),
     "C12": ("kernel", "exploration",
             "exhaustive enumeration of a deterministic (a,p) lattice built from the code's own branch thresholds, vs independent P(a,x)",
-            "Every point of a dense deterministic lattice over shape a in [0.05,100] and p in [0,1) - including p=0, p within 2^-53 of 0 and 1, ulp neighbours of every start-value branch threshold and of the a~1 window - is evaluated with the real inverse_gamma_lr under catch_unwind and judged: Err or finite positive; accurate to 2e-8 where the true quantile >= 1e-13; monotone along each a-row. The sampler binding (lambda of a sample is this function of dod and the designated coordinate) is checked on explored executions by the sampler engine.",
+            "Every point of a dense deterministic lattice over shape a in [0.05,100] and p in [0,1) - including p=0, p within 2^-53 of 0 and 1, ulp neighbours of every start-value branch threshold and of the a~1 window - is evaluated with the real inverse_gamma_lr under catch_unwind and judged: Err or finite positive; accurate to 2e-8 where the true quantile >= 1e-13 (an Err there is a violation too); monotone along each a-row. The lattice also contains, per a, the p whose quantile is a(1+d) or 3a(1+d) (thresholds on the Cornish-Fisher estimate). Sampler binding: on explored executions the metadata lambda must satisfy the same relation for (dod, coordinate 2E-2), a GammaError must surface as Err, and samplers of different dod written into the same memory slot must not share a quantile.",
             "Trusted: reference P/Q by series and Lentz continued fraction with libm lgamma. A lattice, not the continuum: values between lattice points are not covered.",
             "DESIGN.md §5/C12"),
     "C15": ("kernel", "exploration",
             "complete enumeration of small-integer SPD matrices and structured families vs exact rational linear algebra",
-            "All symmetric integer matrices with diagonal 1..4 and off-diagonal -2..2 up to dim 3 (quick) / 4 (thorough), structured families (Hilbert-like, graded, Pascal, Lehmer, min, tridiagonal, arrow, Wilson) dims 1..8 in all simultaneous permutations for dim<=5, and L matrices of banana and mercedes graphs, are decomposed with the real routine and compared with the exact inverse, determinant and factor identities, tolerance 2^-52*2^14*cond_1.",
+            "All symmetric integer matrices with diagonal 1..4 and off-diagonal -2..2 up to dim 3 (quick) / 4 (thorough), structured families (Hilbert-like, graded, Pascal, Lehmer, min, tridiagonal, arrow, Wilson) dims 1..8 in all simultaneous permutations for dim<=5, near-dependent matrices diag(a)+c*ones (c up to 3e9), 2^k-scaled copies of every family member, and L matrices of banana and mercedes graphs, are decomposed with the real routine and compared with the exact inverse, determinant and factor identities, tolerance 2^-52*2^14*cond_1; the decomposition handed out in a sample's metadata is compared bit-for-bit with the routine's result for the L matrix handed out next to it.",
             "Trusted: exact BigRational linear algebra. cond_1 <= 1e10 and range clause as the property states.",
             "DESIGN.md §5/C15"),
     "C16": ("kernel", "exploration",
             "complete enumeration of small symmetric matrices (definite, semi-definite, indefinite) x tolerance alphabet; exact recomputation of the L21 distance",
-            "Every symmetric integer matrix of the alphabet up to dim 3, plus 2^±200/±500 scaled copies, under 8 tolerances (None, 0, 1e-300 ... +inf): Ok implies non-zero determinant and pivot product, and with the test on Ok implies no NaN and an exactly recomputed L21 distance <= tol (+ f64 rounding slack).",
+            "Every symmetric integer matrix of the alphabet up to dim 3, plus 2^±200/±500 scaled copies, under 8 tolerances (None, 0, 1e-300 ... +inf): Ok implies non-zero determinant and pivot product, and with the test on Ok implies no NaN and an exactly recomputed L21 distance <= tol + 2B, B the rigorous first-order bound of the f64 evaluation of that distance; an ill-conditioned SPD family x a ladder of 14 tolerances covers the only zone where a wrong residual can be refuted soundly (exact distance above 2B). Corner x-space points of multi-loop graphs through sample() with the test on must not return Ok with a NaN decomposition.",
             "Trusted: exact rational recomputation of inverse*M - I. Panics on non-definite input are recorded, not judged.",
             "DESIGN.md §5/C16"),
     "C20": ("kernel", "exploration",
             "full product of a 16-value boundary alphabet over both operands (D<=3, thorough D<=4), deviation-bounded for D=4..8, bit-exact IEEE oracle",
-            "Every Vector operator and constructor and every f64 MomTropFloat method is evaluated on the complete product of a boundary-value alphabet and compared bit-for-bit with componentwise IEEE arithmetic accumulated from +0 at index 0 upward.",
+            "Every Vector operator and constructor (including squared/dot of a vector after += and after a write through IndexMut) and every f64 MomTropFloat method is evaluated on the complete product of a boundary-value alphabet and compared bit-for-bit with componentwise IEEE arithmetic accumulated from +0 at index 0 upward.",
             "Trusted: Rust's f64 arithmetic as the IEEE reference. NaN payloads not compared.",
             "DESIGN.md §5/C20"),
     "C07": ("sampler", "model_checking",
@@ -78,7 +78,7 @@ CHECKS = {
             "DESIGN.md §5/C02"),
     "C06": ("c06", "model_checking",
             "explicit enumeration of every reachable subgraph (state) of every accepted configuration; boundary-adjacent answer alphabet per state; 100% of lattice transitions witnessed",
-            "For every oracle-accepted configuration in scope and every subset g with |g|>=2 the real sampler is driven to g and given every u of an alphabet built from the exact cumulative sums of its own table (interval ends, f64 neighbours of every boundary, 0, 2^-1074, 1-2^-52, 1-2^-53); the selected edge is read from the log and compared with the exact inversion; any panic is a violation.",
+            "For every oracle-accepted configuration in scope and every subset g with |g|>=2 the real sampler is driven to g and given every u of an alphabet built from the exact cumulative sums of its own table (interval ends, f64 neighbours of every boundary, 0, 2^-1074, 1-2^-52, 1-2^-53); the selected edge is read from the log and compared with the exact inversion; any panic is a violation. Every interior boundary is also approached from both sides by a double-double answer c_k +- 2^-75 that f64 cannot represent (any scalar type), and graphs with a weight hierarchy of 2^60 are included.",
             "Trusted: exact rational cumulative sums of the implementation's table values; removal order read through the `log` feature.",
             "DESIGN.md §5/C06"),
     "C14": ("c14", "model_checking",
@@ -88,7 +88,7 @@ CHECKS = {
             "DESIGN.md §5/C14"),
     "C19": ("c14", "exploration",
             "narrowing census with an instrumented scalar on every explored execution (all control-flow exits) + double-double scalar through the matrix kernel vs exact rationals",
-            "(a) On every explored execution (all sectors in scope; Ok, Unstable and GammaError exits; metadata on/off) every to_f64 argument is a constant or exactly the designated coordinate, narrowed once, and the multiset of from_f64 arguments (Gamma result excepted) is identical across all points of a sector, so no user data passes through f64. (b) A double-double type run through decompose_for_tropical on structured SPD families and graph L matrices reproduces the exact inverse, determinant and factor identities to 2^-86*cond, 10^10 times tighter than any f64 detour allows, without a single to_f64 call.",
+            "(a) On every explored execution (all sectors in scope; Ok, Unstable and GammaError exits; metadata on/off) every to_f64 argument is a constant or exactly the designated coordinate, narrowed once, and the multiset of from_f64 arguments (Gamma result excepted) is identical across all points of a sector, so no user data passes through f64. (b) A double-double type run through decompose_for_tropical on structured SPD families and graph L matrices reproduces the exact inverse, determinant and factor identities to 2^-86*cond, 10^10 times tighter than any f64 detour allows, without a single to_f64 call. (c) The whole sampler is run with the double-double scalar (exp/ln/pow evaluated in double-double): on 2-4-loop bananas the rescaled parameters recovered from the returned L satisfy the tropical normalisation to 2^-80 and u, v the exact polynomials to 2^-86*cond, including kinematics where V cancels by 1e18.",
             "Trusted: instrumented scalar types (harness code), exact rational algebra. 'Any type' is represented by three types.",
             "DESIGN.md §5/C19"),
     "C01": ("c01", "model_checking",
@@ -98,12 +98,12 @@ CHECKS = {
             "DESIGN.md §5/C01, §8"),
     "C17": ("history+sched", "model_checking",
             "exhaustive call histories to depth d on two samplers (differential oracle); preemption-bounded DFS over all thread interleavings under an own controlled scheduler on real OS threads; all E! hash orders; child processes",
-            "All operation sequences up to the depth over a 42-operation alphabet are re-executed on freshly built samplers in single-threaded worker processes and every result is compared bit-for-bit with the same call on a fresh sampler, serialisations after every step; all schedules of 2 (thorough: also 3) threads sharing a sampler with at most p preemptions at scalar-operation granularity are executed under a baton scheduler (DFS with prefix replay, divergence = machinery error, a planted impurity must be caught first); get_dimension/from_rng/sample under all E! hash iteration orders; digests across child processes; from_rng vs x-space equality and draw count; settings invariance.",
+            "All operation sequences up to the depth over a 42-operation alphabet are re-executed on freshly built samplers in single-threaded worker processes and every result is compared bit-for-bit with the same call on a fresh sampler, serialisations after every step; all schedules of 2 (thorough: also 3) threads sharing a sampler with at most p preemptions at scalar-operation granularity are executed under a baton scheduler (DFS with prefix replay, divergence = machinery error, a planted impurity must be caught first); get_dimension/from_rng/sample and a sampler with unequal non-dyadic weights under all E! hash iteration orders; digests across child processes; from_rng vs x-space equality and draw count (incl. scripted exact zeros, odd D with two loops); settings invariance incl. a failing stability test; history operations include an in-place rebuild of a different sampler and sampling with different edge data; a corpus of 175 configurations x 5 settings is compared bit-for-bit with momtrop built WITHOUT any cargo feature (harness/nolog).",
             "Trusted: the baton scheduler (harness code; replay determinism asserted per scenario). Preemption only at scalar-operation boundaries of generic code: races inside non-generic f64 code are outside (no shared state there today - source scan reported as assumption).",
             "DESIGN.md §5/C17, §8"),
     "C18": ("history", "model_checking",
             "every accepted configuration round-tripped through two formats; restored samplers sampled bit-for-bit on the explored answer set",
-            "Every accepted configuration of G-small is serialised and restored through JSON and CBOR (re-serialisation byte-identical, table and accessors equal), and for every admissible configuration of the sampling family samplers restored through JSON, CBOR and CBOR-then-JSON give bit-identical samples (metadata on) on the whole 1-deviation answer set of up to 6 sectors.",
+            "Every accepted configuration of G-small is serialised and restored through JSON and CBOR (re-serialisation byte-identical, table and accessors equal), every accepted configuration (disconnected ones included) is also sampled after restoring with a differential oracle, a third format that writes structs positionally is round-tripped, and for every admissible configuration of the sampling family samplers restored through JSON, CBOR, CBOR-then-JSON and the positional format give bit-identical samples (metadata on) on the whole 1-deviation answer set of up to 6 sectors; a ragged loop signature must survive too.",
             "Trusted: serde_json with float_roundtrip, ciborium. JSON cannot carry non-finite values; such samplers go through CBOR only.",
             "DESIGN.md §5/C18"),
 }
